@@ -226,6 +226,32 @@ func r03_2(c *Ctx, r *Report) {
 			continue
 		}
 		w, ok := want[fname(s.fn)]
+		if !ok && s.fn.Parent() != nil {
+			// a selector loop inside a function literal of a selector function: judged as part of that function,
+			// once per call of the literal
+			outer := s.fn
+			for outer.Parent() != nil {
+				outer = outer.Parent()
+			}
+			if ow, isSel := want[fname(outer)]; isSel {
+				calls := 0
+				for _, b := range outer.Blocks {
+					for _, ins := range b.Instrs {
+						if call, isCall := ins.(*ssa.Call); isCall && call.Common().StaticCallee() == s.fn {
+							calls++
+						}
+					}
+				}
+				if calls == 0 {
+					calls = 1
+				}
+				n += calls
+				p := parityOf(s.idx, 0)
+				construct := uniq(seen, fmt.Sprintf("%s (function literal, called %d times): JIE_QI_IN_USE[%s]", fname(outer), calls, describeIndex(s.idx)))
+				r.check(p == ow, rule, construct, c.pos(s.ins.Pos()), fmt.Sprintf("index parity %s, required %s (even positions are Jie, odd positions are Qi)", map[int]string{0: "even", 1: "odd", -1: "unknown"}[p], map[int]string{0: "even", 1: "odd"}[ow]))
+				continue
+			}
+		}
 		if !ok {
 			// a selector loop moved into an unexported helper: judged once per call from a selector function,
 			// with the parities of the arguments passed there
